@@ -243,4 +243,54 @@ CLAIMED = {
         "note": NOTE_COMMON + "  ruamel's serializer/loader are exercised by the judge, not modelled; anchored containers run in an implementation-only stream.",
         "technique": "Coq proof (fuel sufficiency; loop invariant over common anchor names) + differential correspondence + dump/reload judge",
     },
+    "C15": {
+        "text": ("Theorems C15_required_only_ype / C15_exists_only_ype / C15_optional_only_ype (Coq, no axioms): for "
+                 "every document, every prepared path of the collector-free fragment and all answering oracles the "
+                 "stream of a required query, of exists() and of an optional query ends normally or with a "
+                 "YAMLPathException (optional: or at the node creation reported by the creator parameter) -- never "
+                 "IndexError/TypeError/KeyError/AttributeError/NotImplementedError and never out of fuel (path fuel "
+                 "S(pweight p) and data fuel S(vsize v) proved sufficient).  Model: processor.py query side after six "
+                 "fix: commits, generators as streams.  Collectors and keyword segments are covered by the "
+                 "correspondence run and the judge only (F25 known finding: '(a)b' raises NotImplementedError)."),
+        "design_ref": "DESIGN.md section 4 (C15), docs/C15.md",
+        "note": NOTE_COMMON,
+        "technique": "Coq proof (stream invariant over a fuelled evaluator model, fuel sufficiency) + differential correspondence",
+    },
+    "C01": {
+        "text": ("Segment-level theorems (Coq, no axioms): the key-on-hash, anchor and wildcard handlers of the "
+                 "evaluator model select exactly the nodes of the declarative segment semantics (same objects, "
+                 "order, multiplicity); exists() <-> the required query yields a node.  The path-level statement "
+                 "required = sem is NOT proved: it is evaluated on every run by an independent reference of the "
+                 "documented semantics against the real Processor (identity, order, multiplicity, both notations, "
+                 "optional == required on existing paths), next to the model/implementation correspondence.  "
+                 "Refuted with witnesses: optional query stops at a null intermediate (F10), descendant searches "
+                 "reaching several nodes (F12a)."),
+        "design_ref": "DESIGN.md section 4 (C01), docs/C01.md",
+        "note": NOTE_COMMON,
+        "technique": "Coq proof (segment handlers vs declarative spec) + reference-semantics judge + differential correspondence",
+    },
+    "C09": {
+        "text": ("Purity half only.  Theorems C09_required_pure_partial / C09_exists_pure_partial (Coq, no axioms): for "
+                 "every document and every path without a subtraction collector (collectors with + and & included) "
+                 "no stream of a required query or of exists() ends in a write to the document; "
+                 "C09_subtraction_refuted: (h)-(h.a) deletes h.a from the loaded document (known finding F16).  The "
+                 "model is a pure function of the document with the single writing statement of the read path "
+                 "explicit; a deep snapshot of the real document around every query of the run checks that nothing "
+                 "else writes.  The creation half is another module's."),
+        "design_ref": "DESIGN.md section 4 (C09), docs/C09.md",
+        "note": NOTE_COMMON,
+        "technique": "Coq proof (no-mutation invariant over the evaluator model) + snapshot differential correspondence",
+    },
+    "C02": {
+        "text": ("Theorems (Coq, no axioms) for the key-on-hash and wildcard handlers: parent[parentref] is the node "
+                 "and the ancestry is the context's chain plus that link.  The remaining handlers and the "
+                 "re-resolution of reported paths are NOT proved; they are checked on every run: model vs real code "
+                 "on parent identity, parentref, reported path and full ancestry of every result, and a judge that "
+                 "indexes the real parent, walks the real ancestry and re-queries str(path) in both notations.  "
+                 "Three coordinate defects fixed (#12, #20, set members); known findings F26 (keys the path syntax "
+                 "cannot name) and F27 ([&anchor] paths matching other nodes)."),
+        "design_ref": "DESIGN.md section 4 (C02), docs/C02.md",
+        "note": NOTE_COMMON,
+        "technique": "Coq proof (handler-level coordinate lemmas) + differential correspondence + re-resolution judge",
+    },
 }
